@@ -25,6 +25,9 @@ DICT_PARAM_NAMES = {'prms', 'ref_dict', 'new_dict', 'kwargs', 'dt_kwargs', 'heig
                     'layer_base_params', 'req_cols', 'user_prms', 'default_prms', 'full_prms'}
 
 
+VALUE_RETURNING_MUTATORS = {'setdefault', 'pop', 'popitem'}
+
+
 class Effects:
     def __init__(self, project: Project):
         self.p = project
@@ -357,6 +360,13 @@ class Effects:
             elif e.kind == 'aug':
                 # x += y on a name mutates lists/arrays in place; on attributes/subscripts it is a store
                 out.append((e, e.base, False))
+            elif e.kind == 'call' and tag(e.call) == 'mcall' and e.call[2] in VALUE_RETURNING_MUTATORS and \
+                    not (e.call[2] == 'pop' and tag(T.peel(e.call[1])) in ('col', 'mask', 'vals')):
+                # d.setdefault(k, v) / xs.pop() inside an expression: the receiver is modified as well
+                out.append((e, e.call[1], False))
+            elif e.kind == 'call' and tag(e.call) == 'call' and e.call[1] == ('g', 'builtins.next') and e.call[2]:
+                # next(it) advances the iterator: a module-level itertools.count() / generator is shared state
+                out.append((e, e.call[2][0], False))
         return out
 
     def compute_mutations(self) -> None:
